@@ -205,6 +205,92 @@ theorem resetIndex_spec {frame : List Name} {drop named : Bool} {p : Parent} {de
     | none => rw [hp] at h; cases h
     | some rw0 => rw [hp] at h; cases h; exact ⟨rw0, rfl, rfl⟩
 
+theorem binop_spec {selfCols : List Name} {left right : Option (List Name)} {p : Parent} {deps : List Dep} {rw : Rw}
+    (h : binop selfCols left right p deps = some rw) :
+    rw = { childs := [binopSide (selfCols.filter ((detProj p deps []).toList.contains ·)) left,
+                      binopSide (selfCols.filter ((detProj p deps []).toList.contains ·)) right], keep := true } := by
+  unfold binop at h
+  simp only at h
+  split at h
+  · cases h
+  · cases h; rfl
+
+theorem binopSide_some {columns : List Name} {o : Option (List Name)} {s : Sel} (h : binopSide columns o = some s) :
+    s = .many columns ∧ ∃ lc, o = some lc := by
+  cases o with
+  | none => cases h
+  | some lc =>
+    simp only [binopSide] at h
+    split at h
+    · cases h
+    · cases h; exact ⟨rfl, lc, rfl⟩
+
+theorem binopSide_none_some {columns lc : List Name} (h : binopSide columns (some lc) = none) : lc = columns := by
+  simp only [binopSide] at h
+  split at h
+  · assumption
+  · cases h
+
+/-- every column of the union that the input has is in the `plain` child -/
+theorem plainSel_mem (frame : List Name) (p : Parent) (deps : List Dep) (extra : List Name) (c : Name)
+    (hu : c ∈ unionCols p deps extra) (hf : c ∈ frame) : c ∈ (plainSel frame (detProj p deps extra)).toList := by
+  cases hs : detProj p deps extra with
+  | many l =>
+    have ht := detProj_toList p deps extra
+    rw [hs] at ht
+    simp only [Sel.toList] at ht
+    simp only [plainSel, Sel.toList, List.mem_filter, List.contains_iff_mem]
+    exact ⟨hf, by rw [ht]; exact hu⟩
+  | one s =>
+    obtain ⟨hu1, _⟩ := detProj_one hs
+    rw [hu1] at hu
+    have : c = s := by simpa using hu
+    subst this
+    simp only [plainSel, List.contains_iff_mem.mpr hf, if_true, Sel.toList, List.mem_singleton]
+
+theorem astype_spec {frame : List Name} {dkeys : Option (List Name)} {p : Parent} {deps : List Dep} {rw : Rw}
+    (h : astype frame dkeys p deps = some rw) :
+    (dkeys.map (·.filter (detProj p deps []).has) = some [] ∧ rw = { childs := [none], keep := true, gone := true }) ∨
+    (dkeys.map (·.filter (detProj p deps []).has) ≠ some [] ∧
+      ((∃ l, detProj p deps [] = .many l ∧
+          rw = { childs := [some (.many (frame.filter (l.contains ·)))], keep := true,
+                 keys := dkeys.map (·.filter (detProj p deps []).has) }) ∨
+       (∃ s, detProj p deps [] = .one s ∧
+          rw = { childs := [some (.one s)], keep := false,
+                 keys := dkeys.map (·.filter (detProj p deps []).has) }))) := by
+  unfold astype at h
+  simp only at h
+  split at h
+  · rename_i hg; cases h; exact Or.inl ⟨hg, rfl⟩
+  · rename_i hg
+    right
+    refine ⟨hg, ?_⟩
+    cases hs : detProj p deps [] with
+    | many l =>
+      left
+      rw [hs] at h
+      simp only at h
+      split at h
+      · cases h
+      · cases h; exact ⟨l, rfl, rfl⟩
+    | one s =>
+      right
+      rw [hs] at h
+      simp only at h
+      split at h
+      · cases h
+      · cases h; exact ⟨s, rfl, rfl⟩
+
+theorem merge_spec {m : MergeP} {L R : List Name} {p : Parent} {deps : List Dep} {rw : Rw}
+    (h : merge m L R p deps = some rw) :
+    rw = { childs := [some (.many (mergeLists m L R (detProj p deps []).toList).1),
+                      some (.many (mergeLists m L R (detProj p deps []).toList).2)], keep := true } := by
+  unfold merge at h
+  simp only at h
+  split at h
+  · cases h; rfl
+  · cases h
+
 /-! ### rename -/
 
 /-- the forward label map of `rename(columns=mapping)` -/
